@@ -1395,6 +1395,75 @@ def register(I):
             raise Unsupported("%s: no feasible outcome" % which)
         return results
 
+    @reg("Iterator::rposition")
+    def it_rposition(I, st, args, info):
+        """index (from the front) of the last element satisfying the predicate"""
+        it = deref_all(I, args[0], st)
+        paths, panics = drive_multi(I, it, st)
+        results = [(s_, p_) for s_, p_ in panics]
+        for cur, items in paths:
+            live = [cur]
+            for idx in range(len(items) - 1, -1, -1):
+                nxt = []
+                for s0 in live:
+                    for s2, r in I.call_value(args[1], [items[idx]], s0):
+                        if isinstance(r, Panic):
+                            results.append((s2, r))
+                        elif r is True:
+                            results.append((s2, opt_some(idx)))
+                        elif r is False:
+                            nxt.append(s2)
+                        else:
+                            for g, hit in ((r, True), (b_not(r), False)):
+                                g = b_simpl(g)
+                                if g is False or not I.feasible(s2.pc, g):
+                                    continue
+                                if hit:
+                                    results.append((s2.fork(g), opt_some(idx)))
+                                else:
+                                    nxt.append(s2.fork(g))
+                live = nxt
+                if not live:
+                    break
+            results.extend((s0, OPT_NONE) for s0 in live)
+        return results
+
+    @reg("str::from_utf8", "::from_utf8", "from_utf8", "converts::from_utf8")
+    def str_from_utf8(I, st, args, info):
+        bs = list(seq_of(I, args[0], st))
+        if all(isinstance(b, int) for b in bs):
+            try:
+                txt = bytes(bs).decode("utf-8")
+                return res_ok(StrSlice(SymBuf([ord(c) for c in txt], name="utf8"), 0, len(txt)))
+            except UnicodeDecodeError:
+                return res_err(Adt("Utf8Error", None, [()]))
+        if len(bs) == 1:
+            b = bs[0]
+            ok_ = z3.ULT(b, z3.BitVecVal(0x80, b.size()))
+            c = z3.ZeroExt(32 - b.size(), b) if b.size() < 32 else b
+            return Outcomes([(ok_, res_ok(StrSlice(SymBuf([c], name="utf8"), 0, 1))), (z3.Not(ok_), res_err(Adt("Utf8Error", None, [()])))])
+        raise Unsupported("from_utf8 of several symbolic bytes")
+
+    @reg("fs::canonicalize", "::canonicalize", "canonicalize", "fs::metadata", "Path::exists", "fs::read_to_string", "fs::read_link")
+    def fs_access(I, st, args, info):
+        """the file system is outside the inputs of parse/compile: any answer is possible"""
+        I.nondet_reads.append("file system (%s)" % info.path.last())
+        k = len(I.nondet_reads)
+        present = z3.Bool("fs_%d" % k)
+        if info.path.last() == "exists":
+            return present
+        val = StringV([z3.BitVec("fs_%d_%d" % (k, i), 32) for i in range(3)])
+        return Outcomes([(present, res_ok(val)), (z3.Not(present), res_err(Adt("IoError", None, [()])))])
+
+    @reg("Cow::into_owned", "Cow::to_mut", "Cow::into_string")
+    def cow_into_owned(I, st, args, info):
+        v = deref_all(I, args[0], st)
+        return umap(lambda x: StringV(tuple(as_str_items(I, x, st))) if isinstance(x, (StrSlice, StringV)) else x, v)
+
+    @reg("Path::components")
+    def path_components_(I, st, args, info):
+        return Adt("Components", None, [StringV(tuple(as_str_items(I, args[0], st)))])
+
     @reg("Iterator::map")
     def it_map(I, st, args, info):
         it = args[0]
@@ -1471,6 +1540,29 @@ def register(I):
     def it_collect(I, st, args, info):
         gens = info.path.generics(-1)
         target = _interp.short_type(gens[0]) if gens else _interp.short_type(info.dest_type() or "")
+        a0 = deref_all(I, args[0], st)
+        if isinstance(a0, Adt) and a0.ty == "Components":
+            if target not in ("PathBuf", "Vec<Component>") and "PathBuf" not in target:
+                raise Unsupported("collect of path components into " + target)
+            alts = []
+            for g, comps in path_components(tuple(a0.fields[0].items)):
+                if g is False or (g is not True and not I.feasible(st.pc, g)):
+                    continue
+                out = []
+                for i, c in enumerate(comps):
+                    if c == "root":
+                        out.append(47)
+                        continue
+                    if out and out[-1] != 47:
+                        out.append(47)
+                    if c == "cur":
+                        out.append(46)
+                    elif c == "parent":
+                        out.extend([46, 46])
+                    else:
+                        out.extend(c[1])
+                alts.append((g, StringV(out)))
+            return merge_many(alts)
         return consume(I, args[0], st, lambda items, s2: collect_items(I, items, s2, info), unordered_ok=target.startswith("HashMap<"))
 
     def collect_items(I, items, st, info):
